@@ -81,6 +81,31 @@ Arguments m_apply_test_voltage {K}. Arguments m_Isc_net {K}. Arguments m_test_I 
 Arguments thevenin_net {K}. Arguments norton_net {K}. Arguments ctx2 {K}. Arguments drop_ic {K}. Arguments zero_par {K}.
 Arguments is_indep : clear implicits.
 (* ---- checkers over Qc (evaluated by vm_compute in the generated cases files) ---- *)
+(* Own copies of the small dump -> model-netlist helpers (they mirror the correspondence helpers of Gen.C01model,
+   which are being generalised independently); only the stable part of Gen.C01model - cname, stamp_of, netlist,
+   assemble, kcl, crel, phys, wf_net, entry - is shared with the theorems. *)
+Record craw := CRaw {
+  cr_cl : cname; cr_info : cinfo; cr_kind : akind; cr_typ : ctype;
+  cr_n0 : Z; cr_n1 : Z; cr_n2 : Z; cr_n3 : Z; cr_c0 : Z; cr_c1 : Z;
+  cr_L1 : nat; cr_L2 : nat;
+  cr_ic : bool; cr_cv : bool; cr_a1 : bool; cr_ts : bool;
+  cr_par : pname -> Qc }.
+Definition czidx (k : bkey) (us : list bkey) : Z :=
+  match index_of k us with Some n => Z.of_nat n | None => 0 end.
+Definition cmkctx (us : list bkey) (e : craw) : sctx QcF :=
+  SCtx QcF (cr_kind e) (cr_typ e) (cr_n0 e) (cr_n1 e) (cr_n2 e) (cr_n3 e) (cr_c0 e) (cr_c1 e)
+    (czidx (ci_id (cr_info e), false) us) (czidx (ci_id (cr_info e), true) us)
+    (czidx (ci_ctrl (cr_info e), false) us) (czidx (cr_L1 e, false) us) (czidx (cr_L2 e, false) us)
+    (cr_ic e) (cr_cv e) (cr_a1 e) (cr_ts e) (cr_par e).
+Definition cmodel_net (es : list craw) : netlist QcF :=
+  let us := unknowns (map cr_info es) in map (fun e => (cr_cl e, cmkctx us e)) es.
+Definition c_entries (es : list craw) (l : list (mname * Z * Z * Qc)) : bool :=
+  match assemble (cmodel_net es) with
+  | SErr => false
+  | SOk T => forallb (fun e => match e with (mm, r, c, x) => qc_eqb (entry T mm r c) x end) l
+  end.
+Definition cvec_of (x : list Qc) (off : nat) : Z -> Qc := fun i => nth (off + Z.to_nat i) x (0%Qc).
+Fixpoint cupto (n : nat) : list Z := match n with O => [] | S n' => cupto n' ++ [Z.of_nat n'] end.
 Definition qz : Qc := 0%Qc.
 (* x = node potentials (nn of them) followed by branch currents: does it solve
    the MNA system assembled by the regenerated stamps from netlist N ? *)
@@ -88,27 +113,27 @@ Definition net_solves (N : netlist QcF) (nn mm : nat) (x : list Qc) : bool :=
   match assemble N with
   | SErr => false
   | SOk T =>
-      forallb (fun r => qc_eqb (node_res T (vec_of x 0) (vec_of x nn) r) qz) (upto nn) &&
-      forallb (fun q => qc_eqb (br_res T (vec_of x 0) (vec_of x nn) q) qz) (upto mm)
+      forallb (fun r => qc_eqb (node_res T (cvec_of x 0) (cvec_of x nn) r) qz) (cupto nn) &&
+      forallb (fun q => qc_eqb (br_res T (cvec_of x 0) (cvec_of x nn) q) qz) (cupto mm)
   end.
-Definition pvx (p m : Z) (x : list Qc) : Qc := Qcminus (vv (K:=QcF) (vec_of x 0) p) (vv (K:=QcF) (vec_of x 0) m).
-Definition ibx (nn : nat) (x : list Qc) (f : nat) : Qc := vec_of x nn (Z.of_nat f).
+Definition pvx (p m : Z) (x : list Qc) : Qc := Qcminus (vv (K:=QcF) (cvec_of x 0) p) (vv (K:=QcF) (cvec_of x 0) m).
+Definition ibx (nn : nat) (x : list Qc) (f : nat) : Qc := cvec_of x nn (Z.of_nat f).
 
 (* Voc: the circuit as it is *)
-Definition c_voc (es : list raw) (nn mm : nat) (p m : Z) (x : list Qc) (V : Qc) : bool :=
-  net_solves (model_net es) nn mm x && qc_eqb (pvx p m x) V.
+Definition c_voc (es : list craw) (nn mm : nat) (p m : Z) (x : list Qc) (V : Qc) : bool :=
+  net_solves (cmodel_net es) nn mm x && qc_eqb (pvx p m x) V.
 (* Isc: Vshort_ added as the last element, its branch unknown is the last one *)
-Definition c_isc (kd : akind) (es : list raw) (nn mm : nat) (p m : Z) (x : list Qc) (I : Qc) : bool :=
-  net_solves (m_Isc_net kd (model_net es) p m (Z.of_nat mm)) nn (S mm) x && qc_eqb (ibx nn x mm) I.
+Definition c_isc (kd : akind) (es : list craw) (nn mm : nat) (p m : Z) (x : list Qc) (I : Qc) : bool :=
+  net_solves (m_Isc_net kd (cmodel_net es) p m (Z.of_nat mm)) nn (S mm) x && qc_eqb (ibx nn x mm) I.
 (* impedance: kill (ics: are initial conditions acted upon), test current, Voc *)
-Definition c_zth (ics : bool) (kd : akind) (es : list raw) (nn mm : nat) (p m : Z) (x : list Qc) (Zt : Qc) : bool :=
-  net_solves (m_apply_test_current ics kd (model_net es) p m) nn mm x && qc_eqb (pvx p m x) Zt.
+Definition c_zth (ics : bool) (kd : akind) (es : list craw) (nn mm : nat) (p m : Z) (x : list Qc) (Zt : Qc) : bool :=
+  net_solves (m_apply_test_current ics kd (cmodel_net es) p m) nn mm x && qc_eqb (pvx p m x) Zt.
 (* admittance: kill, test voltage, -I(test) *)
-Definition c_yth (ics : bool) (kd : akind) (es : list raw) (nn mm : nat) (p m : Z) (x : list Qc) (Y : Qc) : bool :=
-  net_solves (m_apply_test_voltage ics kd (model_net es) p m (Z.of_nat mm)) nn (S mm) x && qc_eqb (Qcopp (ibx nn x mm)) Y.
+Definition c_yth (ics : bool) (kd : akind) (es : list craw) (nn mm : nat) (p m : Z) (x : list Qc) (Y : Qc) : bool :=
+  net_solves (m_apply_test_voltage ics kd (cmodel_net es) p m (Z.of_nat mm)) nn (S mm) x && qc_eqb (Qcopp (ibx nn x mm)) Y.
 (* transfer: kill, test voltage at port 1, voltage at port 2 *)
-Definition c_tr (ics : bool) (kd : akind) (es : list raw) (nn mm : nat) (p m pb mb : Z) (x : list Qc) (H : Qc) : bool :=
-  net_solves (m_apply_test_voltage ics kd (model_net es) p m (Z.of_nat mm)) nn (S mm) x && qc_eqb (pvx pb mb x) H.
+Definition c_tr (ics : bool) (kd : akind) (es : list craw) (nn mm : nat) (p m pb mb : Z) (x : list Qc) (H : Qc) : bool :=
+  net_solves (m_apply_test_voltage ics kd (cmodel_net es) p m (Z.of_nat mm)) nn (S mm) x && qc_eqb (pvx pb mb x) H.
 (* the returned models, attached to a load line u = E + Zl j:  the pair (u, j) Lcapy reports for
    "original + load" lies on the Thevenin line u = Voc - Zth j and on the Norton line j = Isc - Yth u *)
 Definition c_line_th (Voc Zth u j : Qc) : bool := qc_eqb u (Qcminus Voc (Qcmult Zth j)).
@@ -117,7 +142,7 @@ Definition c_line_no (Isc Yth u j : Qc) : bool := qc_eqb j (Qcminus Isc (Qcmult 
 Definition c_ident (Voc Isc Zth Yth : Qc) : bool := qc_eqb (Qcmult Isc Zth) Voc && qc_eqb (Qcmult Zth Yth) 1%Qc.
 
 (* well-posedness certificate for the model netlist of a dumped circuit *)
-Definition c_inv (es : list raw) (nn mm : nat) (B : list (list Qc)) : bool := cert (K:=QcF) (model_net es) nn mm B.
+Definition c_inv (es : list craw) (nn mm : nat) (B : list (list Qc)) : bool := cert (K:=QcF) (cmodel_net es) nn mm B.
 
 (* one-port trees *)
 Definition c_th (t : tree QcF) (V Zt : Qc) : bool :=
